@@ -21,4 +21,21 @@ admitted amount stays below `L` + the largest admitted request -/
 def overshootOk (L P : Int) (h : NHist) : Bool :=
   h.all (fun e => decide (usedIn P h (e.1 / P) < L + maxIn P h (e.1 / P)))
 
+/-- the history of a run over `arr` = (arrival ns, packet size): arrival time, permits asked, admitted flag -/
+def runHist (arr : List (Int × Int)) (flags : List Bool) (permits : Int × Int → Int) : NHist :=
+  (arr.zip flags).map (fun x => (x.1.1, permits x.1, x.2))
+
+/-- the MQTT request bound on an observed history: in every period in which something arrived at most `L`
+permits were admitted -/
+def requestsOk (L P : Int) (h : NHist) : Bool :=
+  h.all (fun e => decide (usedIn P h (e.1 / P) ≤ L))
+
+/-- arrival times from non-negative advances: packet `k` arrives at `dts[0] + … + dts[k]` (negative and
+missing advances count as 0) -/
+def arrivalTimes : Int → List Int → Nat → List Int
+  | _, _, 0 => []
+  | t, dts, n + 1 =>
+    let t' := t + (if dts.headD 0 > 0 then dts.headD 0 else 0)
+    t' :: arrivalTimes t' dts.tail n
+
 end EgVerif.RateLimiter
